@@ -127,7 +127,8 @@ def run(ctx):
     others = [r for r in allr if r not in START_RULES[:8]]
     starts = allr if not ctx.quick else START_RULES[:8] + [r for i, r in enumerate(others) if i % 3 == ctx.seed % 3 or r in ("line_comment", "block_comment", "COMMENT", "WHITESPACE")]
     for s in starts:
-        for n in range(N + 1): jobs.append((P, st["optimized"], s, ("free", n)))
+        # thorough: the sixteen main rules up to N bytes, the remaining (mostly one-token) rules up to N-1
+        for n in range((N if (ctx.quick or s in START_RULES) else N - 1) + 1): jobs.append((P, st["optimized"], s, ("free", n)))
     # comment rules entered directly: what lies between their parts is visible only on longer texts
     for t in ['/*H//H*/', '/* /*H*/ //H*/ */', '//H/x', '// H!', '/*H*/H', '//H\nH']:
         b = t.encode(); holes = {i for i, c in enumerate(b) if c == ord("H")}
